@@ -194,6 +194,16 @@ class PhaselessA(engine_g.GCase):
                 acc[I] = acc.get(I, 0j) + w * complex(imp) * complex(amp) / complex(ov1)
         res = {}
         dt = s * s
+        # theta: the hooked phase of the real code vs the phase of exp(-sqrt(dt) sum (x - f) m) * ovlp'/ovlp at the replayed fields
+        imp0, _, _, ov0_, ov1_ = self._unpack(out)
+        theta, fb, mf = self._extra
+        xs0 = [complex(v) for v in np.asarray(inp["x"], dtype=object).reshape(-1)]
+        expo = 0j
+        for g in range(self.nchol):
+            f_g = -s * (1j * complex(fb[g]) - complex(mf[g]))
+            expo += -s * (xs0[g] - f_g) * complex(mf[g])
+        z = np.exp(expo) * complex(ov1_) / complex(ov0_)
+        res["theta_argument"] = np.exp(1j * float(np.real(theta))) - z / abs(z)
         for I in set(acc) | set(phi):
             rhs = (complex(phi.get(I, 0)) - dt * (complex(Hphi.get(I, 0)) - Es * complex(phi.get(I, 0)))) / complex(ovo)
             res[f"component[{I:0{2 * self.norb}b}]"] = acc.get(I, 0j) - rhs
@@ -220,7 +230,7 @@ def cases(tier):
 def run(args, seed, known):
     if args["type"] == "A":
         return engine_g.run_gcase(PhaselessA(args), seed=seed, known=known)
-    return c04b.run(args, seed, known)
+    return c04b.run(args, seed, known)  # type "B"
 
 
 def replay(data):
